@@ -11,8 +11,11 @@
      stream/manager.rs                   on_data / on_reset_stream / on_stream_data_blocked ->
                                          handle_stream_frame -> reset_streams_on_error -> close
 
-   Four peer-initiated bidirectional streams share one connection flow controller; the manager
-   creates each stream with desired window = initial window (manager.rs insert_stream).
+   Four bidirectional streams share one connection flow controller: indices 0, 1 are initiated by
+   the peer (created by the first frame that names them or a higher one; receive window =
+   initial_max_stream_data_bidi_remote), indices 2, 3 are opened by the local application before
+   the first operation (receive window = initial_max_stream_data_bidi_local).  The manager creates
+   each stream with desired window = initial window (manager.rs insert_stream).
    Executable definitions only. *)
 From SQ Require Import lib.Base gen.Gen_C04.
 Local Open Scope N_scope.
@@ -299,16 +302,20 @@ Record mstate := { conn : cfc; strs : list rs; npn : N; ntag : N; opened : nat }
 
 Definition nstreams : nat := 4.
 
-Definition minit (ws wc : N) : mstate :=
-  {| conn := cfc_new wc; strs := repeat (rs_new ws) nstreams; npn := 0; ntag := 1; opened := O |}.
+Definition minit (ws wl wc : N) : mstate :=
+  {| conn := cfc_new wc; strs := [rs_new ws; rs_new ws; rs_new wl; rs_new wl]; npn := 0; ntag := 1; opened := O |}.
+
+(* does stream i exist?  the locally opened ones (2, 3) always do *)
+Definition is_open (m : mstate) (i : nat) : bool := (2 <=? i)%nat || (i <? opened m)%nat.
 
 Definition get (m : mstate) (i : nat) : rs := nth i (strs m) (rs_new 0).
 Definition put (m : mstate) (i : nat) (s : rs) (c : cfc) : mstate :=
   {| conn := c; strs := set_nth i (strs m) s; npn := npn m; ntag := ntag m; opened := opened m |}.
 
 (* open_stream_if_necessary: a frame for stream i creates all streams of the type up to i *)
+Definition open_count (n i : nat) : nat := if (i <? 2)%nat then Nat.max n (S i) else n.
 Definition open_upto (m : mstate) (i : nat) : mstate :=
-  {| conn := conn m; strs := strs m; npn := npn m; ntag := ntag m; opened := Nat.max (opened m) (S i) |}.
+  {| conn := conn m; strs := strs m; npn := npn m; ntag := ntag m; opened := open_count (opened m) i |}.
 
 Inductive op :=
 | OStream (i : nat) (off len : N) (fin : bool)
@@ -394,7 +401,7 @@ Definition transmit_strs (pn : N) (l : list rs) : list Z * list rs :=
 Definition step (m : mstate) (o : op) : mstate * list Z * bool :=
   match o with
   | OStream i off len fin =>
-      let m1 := {| conn := conn m; strs := strs m; npn := npn m; ntag := ntag m + 1; opened := Nat.max (opened m) (S i) |} in
+      let m1 := {| conn := conn m; strs := strs m; npn := npn m; ntag := ntag m + 1; opened := open_count (opened m) i |} in
       match on_data (get m i) (conn m) off len fin (ntag m) with
       | ROk s c => (put m1 i s c, [0%Z], false)
       | RErr code => (m1, Nz code :: closed_out m1, true)
@@ -408,13 +415,13 @@ Definition step (m : mstate) (o : op) : mstate * list Z * bool :=
       end
   | OBlocked i => (open_upto m i, [0%Z], false)
   | ORead i n =>
-      if (opened m <=? i)%nat then (m, enc_read None, false) else
+      if negb (is_open m i) then (m, enc_read None, false) else
       match app_read (get m i) (conn m) n with
       | None => (m, enc_read None, false)
       | Some (runs, f, s, c) => (put m i s c, enc_read (Some (runs, f)), false)
       end
   | OStop i =>
-      if (opened m <=? i)%nat then (m, [], false) else
+      if negb (is_open m i) then (m, [], false) else
       (put m i (app_stop (get m i)) (conn m), [], false)
   | OTransmit =>
       let pn := npn m in
@@ -442,8 +449,10 @@ Fixpoint steps (m : mstate) (ops : list op) : list Z :=
 
 Definition u32 (z : Z) : N := N.min (zN z) u32_max.
 
-(* case = [stream window; connection window; ops ...] *)
+(* case = [stream window of peer-initiated streams; stream window of locally initiated streams;
+           connection window; ops ...] *)
 Definition run (c : list Z) : list Z :=
   let ws := u32 (hd 0%Z c) in
-  let wc := u32 (hd 0%Z (tl c)) in
-  steps (minit ws wc) (parse (length c) (tl (tl c))).
+  let wl := u32 (hd 0%Z (tl c)) in
+  let wc := u32 (hd 0%Z (tl (tl c))) in
+  steps (minit ws wl wc) (parse (length c) (tl (tl (tl c)))).
